@@ -800,6 +800,14 @@ func (t *T) takeFailed() stopTest {
 	return failed
 }
 
+// adoptFailure makes a non-fatal failure signalled on inner (the T handed to a Custom generator function)
+// a non-fatal failure of t.
+func (t *T) adoptFailure(inner *T) {
+	if msg := inner.takeFailed(); msg != "" {
+		t.fail(false, string(msg))
+	}
+}
+
 func (t *T) failOnError() {
 	t.mu.RLock()
 	defer t.mu.RUnlock()
